@@ -8,6 +8,7 @@
 //
 //	import "net"   -> net  "verif/shim/vnet"   (Dial/DialTimeout consult the harness; all else aliases net)
 //	import "sync"  -> sync "verif/shim/vsync"  (locks are scheduling points)
+//	import "math/rand" -> rand "verif/shim/vrand" in cmd/rdpgw/web (round-robin pick becomes a harness input)
 //	go f(a, b)     -> { vF, v0, v1 := f, a, b; vsched.Go("f", func() { vF(v0, v1) }) }
 //	ch <- v        -> vsched.ChanSend(ch, v)
 //	<-ch           -> vsched.ChanRecv(ch)
@@ -30,12 +31,13 @@ import (
 	"strings"
 )
 
-type rules struct{ net, sync, gostmt, chans bool }
+type rules struct{ net, sync, gostmt, chans, rand bool }
 
 var pkgs = map[string]rules{
 	"cmd/rdpgw/protocol":  {net: true, sync: true, gostmt: true, chans: true},
 	"cmd/rdpgw/kdcproxy":  {net: true, sync: true, gostmt: true, chans: true},
 	"cmd/rdpgw/transport": {sync: true, gostmt: true, chans: true},
+	"cmd/rdpgw/web":       {rand: true},
 }
 
 func die(format string, a ...any) {
@@ -120,6 +122,14 @@ func rewrite(name string, src []byte, r rules) ([]byte, bool) {
 						alias = is.Name.Name
 					}
 					ed = &edit{off(is.Pos()), off(is.End()), alias + ` "verif/shim/vnet"`}
+				}
+			case `"math/rand"`:
+				if r.rand {
+					alias := "rand"
+					if is.Name != nil {
+						alias = is.Name.Name
+					}
+					ed = &edit{off(is.Pos()), off(is.End()), alias + ` "verif/shim/vrand"`}
 				}
 			case `"sync"`:
 				if r.sync {
